@@ -370,6 +370,9 @@ func genEngineCase(r *hx.RNG, engine string, small bool) engCase {
 				bad = 0
 			}
 			e.Probe = common.ProbeResponse{TTL: uint8(bad), IP: hx.Pick(r, addrPool), RTT: 1000}
+			if r.Bool() { // a destination-form reply just outside the probed range
+				e.Probe.IsDest, e.Probe.IP = true, destAddr
+			}
 		}
 		at := r.Intn(len(c.Script) + 1)
 		c.Script = append(c.Script[:at], append([]recvEntry{e}, c.Script[at:]...)...)
